@@ -164,7 +164,13 @@ def unit_table(eng):
         obs.append(dict(label=label, kind="closed", status="proved" if ok else "failed", secs=0.0, path=[], witness=None, detail=str(detail), events=[], smt2=None,
                         backend="cpython-eval", unit="rad50-table", func="radix50.TABLE (closed)", cfg=dict(kind="closed")))
     ob("TABLE==RADIX-50-alphabet-in-order", real == spec.ALPHABET, real)
-    ob("engine-reads-the-same-TABLE-from-the-AST", table(eng) == real)
+    try:
+        same = table(eng) == real
+        ob("engine-reads-the-same-TABLE-from-the-AST", same)
+    except Exception as ex:  # pylint: disable=broad-except
+        # the table is built by a construct outside the subset: the units that read it through the engine are undecided, the closed facts decide
+        ob("engine-reads-the-same-TABLE-from-the-AST", False, "the engine cannot evaluate radix50.TABLE: %s" % ex)
+        obs[-1]["status"] = "unknown"
     bad = [(a, b, c) for a in range(40) for b in range(40) for c in range(40)
            if spec.unpack([(a * 40 + b) * 40 + c]) != spec.ALPHABET[a] + spec.ALPHABET[b] + spec.ALPHABET[c]][:1]
     ob("spec-unpack-inverts-spec-pack-on-all-64000-triples", not bad, bad)
@@ -450,7 +456,9 @@ def replay(o, tree):
     from spec import rad50 as spec
     cfg = o.get("cfg") or {}
     if cfg.get("kind") == "alphabet":
-        return replay_alphabet(o, tree)
+        r = replay_alphabet(o, tree)
+        if r["reproduced"]:
+            return r          # (otherwise: the codes, not the set of accepted characters, are wrong - the probe set below shows it)
     # the arithmetic of a failure is independent of the witness strings: replay a fixed probe set through the real assembler
     probes = ["ABC", "abc", "A", "AB", "ABCD", "$.%", "  Z", "X9", "HELLO WORLD"]
     jobs = [{"kind": "asm", "sources": [".rad50 \"%s\"\n" % p]} for p in probes] + [{"kind": "asm", "sources": [".rad50 <1><2><47>\n"]}, {"kind": "asm", "sources": [".word ^RABC, ^RZ\n"]},
